@@ -24,6 +24,7 @@ CONSTANTS MaxSteps,   \* environment steps per behaviour
           Renumber,   \* TRUE: a retransmission takes a new outbound number
           LockStep,   \* TRUE: environment acts only at quiescence (history generation)
           AllowCut,
+          MaxResume,  \* resumptions of the session on a new connection per behaviour
           Emit
 
 VARIABLES st,        \* protocol state record (see St0)
@@ -96,12 +97,21 @@ Init == /\ st = St0(SM) /\ srvOut = <<>> /\ rpos = 0 /\ tasks = {} /\ cut = FALS
 Quiescent == rpos = Len(srvOut) /\ tasks = {} /\ (cut => ~recvAlive)
 EnvOK == Len(hist) < MaxSteps /\ ~cut /\ (LockStep => Quiescent)
 H(op, k, h, via) == [op |-> op, k |-> k, h |-> h, via |-> via]
+Cnt0(seq, o) == Cardinality({i \in 1..Len(seq) : seq[i].op = o})
 
 ServerSend(k, h) ==
     /\ EnvOK
     /\ srvOut' = Append(srvOut, [k |-> k, h |-> h, tag |-> "s" \o ToString(Len(srvOut) + 1)])
     /\ hist' = Append(hist, H("srv", k, h, ""))
     /\ UNCHANGED <<st, rpos, tasks, cut, recvAlive, errCb, discEv, nsend>>
+
+\* the connection is lost and the session is resumed on a new one; the server reports h in <resumed/>.
+\* Whether the client treats that h as an acknowledgement is left open by the properties: both are modelled.
+ServerResume(h, asAck) ==
+    /\ SM /\ EnvOK /\ Cnt0(hist, "resume") < MaxResume
+    /\ st' = IF asAck THEN AckEffect(st, h, Renumber) ELSE st
+    /\ hist' = Append(hist, H("resume", "", h, ""))
+    /\ UNCHANGED <<srvOut, rpos, tasks, cut, recvAlive, errCb, discEv, nsend>>
 
 ServerCut ==
     /\ AllowCut /\ EnvOK
@@ -137,6 +147,7 @@ RouteRun(i) ==
 Next == \/ \E k \in SrvKinds : ServerSend(k, 0)
         \/ \E h \in 0..MaxH : ServerSend("a", h)
         \/ ServerCut
+        \/ \E h \in 0..MaxH, b \in BOOLEAN : ServerResume(h, b)
         \/ \E x \in SendKinds : UserSend(x[1], x[2])
         \/ Recv \/ RecvErr
         \/ \E i \in tasks : RouteRun(i)
